@@ -248,6 +248,43 @@ def corr_run(ctx, name, vh_args, component_desc, nontrivial=lambda c: True, spec
     return {"cases": len(lines), "mismatches": mism, "specbad": specbad}
 
 
+def ref_run(ctx, name, vh_args, desc, nontrivial=lambda c: True, max_samples=3, report_max=3):
+    """run a harness sub-command that compares the implementation with a reference (another implementation or an
+    executable oracle) by itself and lists the differences per case in cases.json (`oracle_fail`)."""
+    out = os.path.join(ctx.workdir, name)
+    os.makedirs(out, exist_ok=True)
+    for f in ("cases.json", "stats.json"):
+        p = os.path.join(out, f)
+        if os.path.exists(p):
+            os.remove(p)
+    cmd = [VH] + vh_args + ["--seed", str(ctx.seed), "--tier", ctx.tier, "--out", out]
+    rc, o = sh(cmd, timeout=6000, env=GOENV)
+    if rc != 0:
+        ctx.violation(name + "_died", {"kind": "the harness process running the implementation died (fatal error, not a recoverable panic) or timed out",
+                                      "broken": "reference comparison %s (%s) could not be completed" % (name, desc),
+                                      "run": name, "vh_args": vh_args, "rc": rc, "output_tail": o[-3000:]}, found_input=False)
+        return {"cases": 0, "bad": []}
+    cases = json.load(open(os.path.join(out, "cases.json")))
+    stats_p = os.path.join(out, "stats.json")
+    if os.path.exists(stats_p):
+        ctx.stats[name] = json.load(open(stats_p))
+    ran = [c for c in cases if not c.get("skipped")]
+    ctx.evaluations += len(ran)
+    for c in ran:
+        if nontrivial(c):
+            key = json.dumps({k: v for k, v in c.items() if k not in ("idx", "artela", "upstream", "oracle_fail")}, sort_keys=True)
+            ctx.distinct.add(hashlib.sha1(key.encode()).hexdigest())
+    for c in ran[:max_samples]:
+        ctx.samples.append({"run": name, "case": {k: v for k, v in c.items() if k not in ("artela", "upstream")}})
+    bad = [c for c in ran if c.get("oracle_fail")]
+    for c in bad[:report_max]:
+        tags = c.get("known_tags") or []
+        ctx.violation(name, {"kind": "the implementation differs from the reference / violates the property oracle on this input",
+                             "run": name, "vh_args": vh_args, "index": c.get("idx"), "case": c})
+    ctx.notes.append("%s: %d cases (%d skipped), %d with differences" % (name, len(ran), len(cases) - len(ran), len(bad)))
+    return {"cases": len(ran), "bad": bad}
+
+
 # ----------------------------------------------------------------------------- proofs
 
 def prop_theorems(prop):
